@@ -41,9 +41,11 @@ Part D2 re-inclusion shortcuts x PATH SPELLING (which file a #pragma once / a de
         tree with one header basename in 7 directories (a different copy in each; w/ w/r w/r/s w/r/s/t w/r/o w/r/o/q
         w/r/o/t) and symbolic links (s/lk -> ../o/q so that lk/.. is NOT s; s/t/up -> ../..; ln.h -> c.h file links).
         Reference = quote form (relative to the primary file's directory) | angle form (relative to the project root,
-        the only -I directory, named relative to the compiler's cwd) x EVERY spelling of <= 3 (thorough 4; angle 3)
-        components over {., .., empty (`//`, quote form only), r, s, t, o, q, lk, up} + {c.h, ln.h} that names an
-        existing file (104 / 124 spellings from w/r/s/t / w/r at <= 3 components; 455 at 4) + 3 absolute paths.
+        the only -I directory, named relative to the compiler's cwd) x EVERY spelling of <= 3 (angle 2; thorough 4,
+        angle 3) components over {., .., empty (`//`, quote form only), r, s, t, o, q, lk, up} + {c.h, ln.h} that names an
+        existing file + 3 absolute paths: 107 / 127 quote-form references from w/r/s/t / w/r at <= 3 components (458 /
+        540 at <= 4), 23 / 80 / 266 angle-form ones at <= 2 / 3 / 4; 10 500 / 13 284 ordered pairs per (kind,
+        configuration) quick, 89 752 / 117 244 scripts thorough (174 204 cases quick, 4.1 M thorough).
         Case = ordered pair of references with one member of <= 2 components (thorough: also every pair <= 3 and every
         triple of quote-form references <= 2) x header kind {#pragma once, own guard, nothing; thorough + both, guard
         #undef'd between} x configuration (compiler cwd = project root | source directory two levels down | sibling |
@@ -1359,12 +1361,12 @@ def p_refs(pdir, maxlen):
 
 
 def p_scripts(tier, refs):
-    """Index tuples into refs.  quick: every ordered pair with one member of <= 2 components and the other of <= 3;
-    thorough: one member <= 2 and the other <= 4 (angle form <= 3), every pair where both are <= 3, and every triple of
-    quote-form references of <= 2 components."""
+    """Index tuples into refs.  quick: every ordered pair with one member of <= 2 components and the other of <= 3
+    (angle form <= 2); thorough: one member <= 2 and the other <= 4 (angle form <= 3), every pair where both are <= 3,
+    and every triple of quote-form references of <= 2 components."""
     full = tier != "quick"
     lo = [i for i, r in enumerate(refs) if r[2] <= 2]
-    hi = [i for i, r in enumerate(refs) if r[2] <= 3 or (full and r[0] == "q")]
+    hi = [i for i, r in enumerate(refs) if r[2] <= (3 if full or r[0] == "q" else 2) or (full and r[0] == "q")]
     mid = [i for i, r in enumerate(refs) if r[2] <= 3] if full else lo
     los, mids = set(lo), set(mid)
     out = [(i, j) for i in hi for j in hi if i in los or j in los or (i in mids and j in mids)]
@@ -1426,6 +1428,14 @@ def p_streams(slots, opt, k, refs, script):
         choices = [sl] + ([["B%d_%s" % (k, refs[script[n]][3])]] if op else [])
         alts = [a + (["M%d" % n] if n else []) + c for a in alts for c in choices]
     return alts
+
+
+def p_pattern(slots, opt, k, refs, script):
+    """The acceptable streams as one pattern for harness/c10_cmp.py: `[opt]T` = T may be present or absent."""
+    o = []
+    for n, (sl, op) in enumerate(zip(slots, opt)):
+        o += (["M%d" % n] if n else []) + sl + (["[opt]B%d_%s" % (k, refs[script[n]][3])] if op else [])
+    return o
 
 
 def p_split(toks, nslots):
@@ -1515,7 +1525,7 @@ def p_task(args):
     scripts = scripts[part::nparts]
     res = {"n": 0, "judged": 0, "disagree": 0, "disagree_ex": None, "viol": {}, "runs": 0, "different_files": 0,
            "same_file_other_spelling": 0, "same_file_same_spelling": 0, "impl_defined_slots": 0,
-           "chibicc_includes_again": 0, "chain_diff": 0, "timeouts": 0, "cut": 0}
+           "chibicc_includes_again": 0, "chain_diff": 0, "timeouts": 0, "cut": 0, "undef": 0}
     w = p_build_tree(wd, kind, range(P_BATCH))
     vfs = p_vfs(range(P_BATCH))
     mfiles = {}
@@ -1524,6 +1534,7 @@ def p_task(args):
             mfiles["%s/c%d.h" % (d, k)] = p_header(kind, tag, k)
     vfs.files = mfiles
     ppath = P_DIRS[cfg[2]] + "/main.c"
+    confirmed = {}      # class seen in the batch -> [confirmed alone as that class, went another way alone]
 
     def run(texts, gcc):
         def runner(src, opts, cwd):
@@ -1568,36 +1579,54 @@ def p_task(args):
                 if tc != ok[0]:
                     res["chibicc_includes_again"] += 1
                 continue
-            # deviating inside the batch: the case alone decides
+            # deviating inside the batch: the case alone decides.  After CONFIRM cases of one class (as seen in the
+            # batch) that all went the same way alone, the batch verdict is counted without another process.
+            pre = p_sig(kind, refs, sc, slots, opt, sc_, tc, k, undef) if sc_ == 0 else None
+            hist = confirmed.get(pre)
+            if hist and sum(hist) >= CONFIRM and 0 in hist:
+                sig = pre if hist[1] == 0 else "%s|differs-after-other-headers-were-read" % kind
+                res["chain_diff"] += hist[1] != 0
+                res["viol"][sig][0] += 1
+                continue
             (sa, ta, ea), = run([txt], False)
             if sa == "timeout":
                 res["timeouts"] += 1
+                res["judged"] -= 1
+                continue
+            if sa != 0 and any("//" in refs[i][1] for i in sc):
+                # `//` inside a header name is undefined (6.4.7p3): an implementation may refuse the directive; when it
+                # accepts the name as a path (chibicc and gcc do) the files it names are judged like all others
+                res["undef"] += 1
                 res["judged"] -= 1
                 continue
             if sa == 0 and ta in ok:
                 res["chain_diff"] += 1
                 sig = "%s|differs-after-other-headers-were-read" % kind
                 alone = False
+                if pre:
+                    confirmed.setdefault(pre, [0, 0])[1] += 1
             else:
                 sig = p_sig(kind, refs, sc, slots, opt, sa, ta, k, undef)
                 alone = True
                 sc_, tc, ec = sa, ta, ea
+                if pre:
+                    confirmed.setdefault(pre, [0, 0])[0 if sig == pre else 1] += 1
             v = res["viol"].setdefault(sig, [0, None])
             v[0] += 1
             size = len(txt) + (0 if alone else 100000)
             if v[1] is None or size < v[1][0]:
                 if alone:       # stand-alone rendering with index 0
                     sl0, op0 = p_accept(kind, refs, sc, 0, undef)
-                    v[1] = (size, ci, kind, (0,), p_case_text(refs, sc, 0, "@W@", undef), p_streams(sl0, op0, 0, refs, sc),
+                    v[1] = (size, ci, kind, (0,), p_case_text(refs, sc, 0, "@W@", undef), p_pattern(sl0, op0, 0, refs, sc),
                             [t.replace("B%d_" % k, "B0_") for t in (tc or [])], str(sc_), ec[-300:],
                             [(refs[i][0], refs[i][1].replace("#", "0"), refs[i][3]) for i in sc])
                 else:           # the whole batch is the reproducer
                     whole = "".join("S%d\n%s" % (j, p_case_text(refs, s2, k2, "@W@", undef)) for j, (s2, k2, _, _) in enumerate(items))
                     allexp = []
                     for (s2, k2, sl2, op2) in items:
-                        allexp += ["S%d" % k2] + p_streams(sl2, op2, k2, refs, s2)[0]
+                        allexp += ["S%d" % k2] + p_pattern(sl2, op2, k2, refs, s2)
                     v[1] = (size, ci, kind, tuple(range(len(items))), whole + "S%d\n" % len(items),
-                            [allexp + ["S%d" % len(items)]], ["<stream of the whole batch>"], str(sc_), ec[-300:],
+                            allexp + ["S%d" % len(items)], ["<stream of the whole batch>"], str(sc_), ec[-300:],
                             [(refs[i][0], refs[i][1].replace("#", str(k)), refs[i][3]) for i in sc])
     shutil.rmtree(wd, ignore_errors=True)
     return res
@@ -1610,11 +1639,11 @@ NAME=$(sed "s|@W@|$W|g" name.txt); INC=$(sed "s|@W@|$W|g" inc.txt)
 cd "w/$(cat cwd.txt)" || exit 0
 $CHIBICC -cc1 -E "-I$INC" -cc1-input "$NAME" "$NAME" > $TOP/got.txt 2> $TOP/err.txt || exit 1
 cd $TOP
-for e in expected*.txt; do python3 $VERIF/harness/c10_cmp.py got.txt $e && exit 0; done
-exit 1"""
+python3 $VERIF/harness/c10_cmp.py got.txt expected.txt || exit 1
+exit 0"""
 
 
-def p_replay_files(ci, kind, indices, main, streams):
+def p_replay_files(ci, kind, indices, main, pattern):
     label, cwd, pdir, name, inc = P_CONFIGS[ci]
     fl = {"main.tmpl": main, "primary.txt": P_DIRS[pdir][3:] + "/main.c\n" if P_DIRS[pdir] != "/w" else "main.c\n",
           "cwd.txt": (cwd[3:] or ".") + "\n", "name.txt": name + "\n", "inc.txt": inc + "\n"}
@@ -1624,8 +1653,7 @@ def p_replay_files(ci, kind, indices, main, streams):
             fl["w%s/c%d.h" % (d[2:], k)] = p_header(kind, tag, k)
         links += ["%s %s" % (t.replace("#", str(k)), l[3:].replace("#", str(k))) for l, t in P_FILELINKS.items()]
     fl["links.txt"] = "\n".join(links) + "\n"
-    for n, a in enumerate(streams):
-        fl["expected%s.txt" % ("" if n == 0 else "_alt%d" % n)] = " ".join(a) + "\n"
+    fl["expected.txt"] = " ".join(pattern) + "\n"      # `[opt]T`: T may be present or absent (see harness/c10_cmp.py)
     return fl
 
 
@@ -1683,7 +1711,7 @@ def part_d2(ctx):
                 tasks.append((ctx.chibicc, os.path.join(ctx.work, "d2_%d_%s%d_%d" % (ci, kind.replace("+", ""), undef, j)),
                               ci, kind, ctx.tier, j, per, undef, ctx.deadline - 15))
     keys = ["n", "judged", "disagree", "runs", "different_files", "same_file_other_spelling", "same_file_same_spelling",
-            "impl_defined_slots", "chibicc_includes_again", "chain_diff", "timeouts"]
+            "impl_defined_slots", "chibicc_includes_again", "chain_diff", "timeouts", "undef"]
     agg = dict.fromkeys(keys, 0)
     dis = None
     for r in core.pmap(p_task, tasks):
@@ -1693,15 +1721,15 @@ def part_d2(ctx):
             ctx.incomplete("part D2: deadline reached; the cases judged so far are reported")
         dis = dis or r["disagree_ex"]
         for sig, (cnt, ex) in sorted(r["viol"].items()):
-            size, ci, kind, indices, main, streams, got, st, err, rdesc = ex
-            fl = p_replay_files(ci, kind, indices, main, streams)
+            size, ci, kind, indices, main, pattern, got, st, err, rdesc = ex
+            fl = p_replay_files(ci, kind, indices, main, pattern)
             fl["observed.txt"] = "status=%s\n%s\n%s\n" % (st, " ".join(got), err)
             ctx.violation("C10|reinclude-path|" + sig,
                           "re-inclusion and path spelling: every copy of the header is of kind '%s'; %s; -I%s; references %s; "
-                          "acceptable streams %s, got %s (status %s)"
+                          "expected %s, got %s (status %s)"
                           % (kind, P_CONFIGS[ci][0], P_CONFIGS[ci][4],
                              ", ".join("%s -> copy in %s" % (('"%s"' if f == "q" else "<%s>") % sp, P_DIRS[t]) for f, sp, t in rdesc),
-                             " | ".join(" ".join(a) for a in streams) if len(indices) == 1 else "(whole batch)",
+                             " ".join(pattern) if len(indices) == 1 else "(whole batch)",
                              " ".join(got), st),
                           files=fl, replay=P_REPLAY)
             for _ in range(cnt - 1):
@@ -1721,6 +1749,7 @@ def part_d2(ctx):
               d2_implementation_defined_slots_either_accepted=agg["impl_defined_slots"],
               d2_of_which_chibicc_included_again=agg["chibicc_includes_again"],
               d2_chained_vs_alone_differences=agg["chain_diff"], oracle_disagreements=agg["disagree"],
+              skipped_undefined=agg["undef"],
               traces_validated_against_impl=agg["judged"], d2_model_vs_kernel_path_lookups=nsc,
               d2_configurations=[c[0] + "|-I" + c[4] for c in P_CONFIGS[:len(configs)]],
               d2_header_kinds=[k + ("+guard-undefined-between" if u else "") for k, u in kinds],
@@ -1733,7 +1762,7 @@ def part_d2(ctx):
                       "file, -I spelling).  Files are identified by what the spelling resolves to (model VFS = kernel = gcc): "
                       "different files are never conflated; the same file under another spelling with #pragma once only may "
                       "be included once or twice" % (
-                          "4 (angle: 3)" if full else "3",
+                          "4 (angle: 3)" if full else "3 (angle: 2)",
                           "ordered pairs with one member <= 2 components (all pairs <= 3), triples of quote-form references <= 2"
                           if full else "ordered pairs with one member <= 2 components"))
     refs = p_refs("st", 2)
@@ -1919,6 +1948,7 @@ def run(ctx):
                "are never the same file, whatever their spellings")
     ctx.assume("`//` inside a header name is undefined behaviour (6.4.7p3): never generated in the angle form (chibicc reads "
                "it as a comment and rejects the directive, gcc accepts it); in the quote form gcc, the model and chibicc "
-               "all read the string as a path and the case is judged")
+               "all read the string as a path and the case is judged; a REJECTION of such a directive would be counted as "
+               "skipped_undefined, not as a violation")
     ctx.assume("#if: right shift of negative values, signed overflow, out-of-range shifts, division by zero and "
                "character constants outside the basic set are not judged (skipped_undefined)")
